@@ -51,6 +51,7 @@ func checkC09(r *Report, p *Program) {
 	freshDecodeTargets(r, p, "R09.20")
 	operandFromTheLoop(r, p, "R09.21")
 	patchHelpersTable(r, p, "R09.22")
+	materialisedRevisionAppended(r, p, "R09.23")
 	// a revision whose recorded claims changed in any way (names added OR removed) is written (shared with C01)
 	r01_revisions(r, p)
 	anyRollingTable(r, p, "R09.19")
